@@ -7,6 +7,11 @@ _NOTE = ('Trusted: Lean 4.33.0 kernel; axioms propext/Classical.choice/Quot.soun
          'hash functions, refmt cbor decoding outside the canonical header subset, go-cid/go-multihash parsing as transcribed are parameters of the model. ')
 
 TEXT = {
+    'C06': {
+        'text': 'Kernel-checked for every option setting, root list, history and byte offset of the OPEN and PUT phases: crash_on_boundary (image cut after any number of complete sections: reopening succeeds with exactly those blocks — all acknowledged ones, only put ones — writer at the end, invariant re-established so continuing and finalizing is covered by C04/C05), crash_inside_section (image cut at ANY byte strictly inside the next section — length prefix, CID or data: reopening fails and the payload window is byte-for-byte untouched), acked_intact_after_refusal, crash_during_open (no write at all), write_order_facts (regenerated guard facts: index before header, section before index insertion, validations before mutation). With C12.finalize_reopen this also covers a crash after a completed Finalize. '
+                'PARTIAL: crash points inside Finalize between the index write and a valid header are not safe in general and are a listed known finding (D5); the header-torn-inside-DataSize case (D6) and the torn-data case (D4) were genuine defects, repaired. The tie records the REAL write trace (hook / recording file), requires it to equal the model\'s write list, and reopens every crash image (every write boundary, every byte of short writes) with the real library.',
+        'note': _NOTE + 'Crash model: a byte prefix of the issued write sequence (no reordering). Finalize-phase crash points (index bytes present, header not yet valid) are explored and compared exhaustively by the tie but have no safety theorem — the property is false there (known finding).',
+    },
     'C12': {
         'text': 'Kernel-checked: discard_reopen and finalize_reopen (for every state reachable through the invariant — any put history, any options — reopening the file after Discard, or after Finalize, with the same roots and options yields a store with the same file bytes (index cut off, header un-finalised), the same log, the writer at the same position and the same index records, so by the C04 refinement and C05 layout theorems every later result and the final bytes are those of the uninterrupted session); create_shape/put_shape (what an un-finalised session leaves on disk); refused_without_writes + reject_wrong_version / reject_wrong_padding / reject_wrong_roots (each mismatch is detected before the first mutation: no write event, file unchanged); rootsMatch_of_perm / rootsMatch_multiset (order ignored, multiplicity not). '
                 'The tie runs random interleavings and all single-field mismatches against real files and in-memory storage.',
